@@ -20,13 +20,15 @@ RULE = ("Latin-1 streams assembled from protocol fragments (known/unknown opener
         "delivered at the call following its last character; behind imitating/truncated text it is delivered once threshold+1 "
         "further characters arrived. Isolation: through the real TCP server / client handlers, one connection of a process carries garbage "
         "(possibly ending inside a message) while 1..2 others carry clean streams, pieces interleaved: the clean connections deliver "
-        "exactly their own messages, promptly. non-trivial = stream contains junk and the run cut inside a piece; "
+        "exactly their own messages, promptly. Differential: junk streams through one real handler of each kind (TCP server, TCP client "
+        "control / BLOB mode, TTY server fed line by line) must be handled, piece by piece, exactly as a bare Buffer with that kind's "
+        "threshold handles them (deliveries and retained length). non-trivial = stream contains junk and the run cut inside a piece; "
         "distinct = hash(stream, threshold, cuts)")
 ASSUMPTIONS = ["promptness is only demanded while the framer is provably synchronised (no '<'+registered-tag text retained before the message)",
                "with the threshold disabled no recovery after imitating junk is demanded",
                "a top-level <oneLight> is accepted as genuine because indipy registers it as a message kind"]
 REQUIRED_EVENTS = ["process_calls", "deliveries", "prompt_obligations", "bounded_progress_obligations", "genuine_checks",
-                   "streams_with_imitating_junk", "truncated_pieces", "isolation_runs", "isolation_obligations"]
+                   "streams_with_imitating_junk", "truncated_pieces", "isolation_runs", "isolation_obligations", "transport_junk_runs", "transport_junk_steps_compared"]
 
 THRESHOLDS = [16, 128, 2048, None]
 QUICK_SHARDS = 4
@@ -327,6 +329,46 @@ def isolation_case(ctx, i):
             return
 
 
+def transport_junk_case(ctx, i):
+    """A junk stream through ONE real connection handler (TCP server, TCP client in control and BLOB mode, TTY server - the latter
+    fed line by line): after every piece the handler must have delivered exactly what a bare Buffer with the threshold that
+    kind of connection is meant to have delivers for the same pieces, and must not retain more."""
+    from vf import transportx as T
+    rng = ctx.rng("transport-junk", i)
+    kind, blob = [("server-tcp", False), ("client-tcp", False), ("client-tcp", True), ("server-tty", False)][i % 4]
+    flavour, jp = J.gen_stream(rng)
+    stream = "".join(p[1] for p in jp)
+    if rng.random() < 0.3:
+        stream += "x" * rng.choice([50, 300, 2500])          # quiet junk after the last message
+    stream = stream.encode("latin1", "xmlcharrefreplace").decode("latin1")
+    if kind == "server-tty":
+        stream = stream.replace("\x00", " ")
+        # a terminal delivers lines; junk may sit on the same line as a message, the last line may be unterminated
+        lines = stream.split("\n")
+        pieces = [l + "\n" for l in lines[:-1]] + ([lines[-1]] if lines[-1] else [])
+        pieces = [p for p in pieces if p]
+        if rng.random() < 0.5:
+            pieces = [q for p in pieces for q in P.cut(p, P.random_cuts(rng, len(p), 1))]
+    else:
+        pieces = P.cut(stream, P.random_cuts(rng, len(stream), rng.choice([1, 2, 5, 9])))
+    pieces = [p for p in pieces if p]
+    if not pieces:
+        return
+    res, stats = T.run(kind, [pieces], [0] * len(pieces), for_blobs=[blob])
+    ctx.count("transport_junk_runs")
+    ctx.count("process_calls", stats["calls"])
+    ctx.seen("transport_junk_kinds", kind + (":blob-mode" if blob else ""))
+    case = {"mode": "transport-junk", "i": i}
+    detail = {"kind": kind, "blob_mode": blob, "pieces": pieces}
+    for ci, what, text in res.errors:
+        ctx.violate(f"transport:{what}:{kind}", f"{what} {text}", case, detail)
+        return
+    for step, ci, what, text in T.differential_problems(res):
+        ctx.violate(f"transport:{what}:{kind}" + (":blob-mode" if blob else ""), text, case, detail)
+        return
+    ctx.count("transport_junk_steps_compared", len(res.after))
+
+
 CUTMODES = ["whole", "char", "pieces", "fixed", "random", "random", "random"]
 
 
@@ -354,6 +396,10 @@ def _run(ctx):
         if ctx.mine(i):
             isolation_case(ctx, i)
             ctx.case_fast(("isolation", i), nontrivial=True)
+    for i in range(1200 if not ctx.thorough else 60000):
+        if ctx.mine(i):
+            transport_junk_case(ctx, i)
+            ctx.case_fast(("transport-junk", i), nontrivial=True)
     # truncation of corpus messages at every position
     m = 32 if not ctx.thorough else 400
     for i in range(1_000_000, 1_000_000 + m):
@@ -379,6 +425,10 @@ def finish_notes(ctx):
 
 
 def replay(ctx, case):
+    if case.get("mode") == "transport-junk":
+        transport_junk_case(ctx, case["i"])
+        ctx.case_fast(("replay",))
+        return
     if case.get("mode") == "isolation":
         isolation_case(ctx, case["i"])
         ctx.case_fast(("replay",))
